@@ -178,6 +178,37 @@ func genWorldSet(r *rand.Rand, quick bool) *plan.Plan {
 			}
 			inc.Ops = append(inc.Ops, plan.Op{Kind: "advance", DurMs: 12_000})
 		}
+		// memory-pressure world (one in five, never the reference): a small memory budget, every batch flushed into
+		// the open segment, a minute on the clock after the second or third batch (the memory limiter's rebalance
+		// evicts the open segment's micro-indexes), more blocks afterwards, queries while the segment is still open
+		pressure := w > 0 && len(evs) >= 12 && r.IntN(5) == 0
+		if pressure {
+			k.MemBytes = []uint64{0, 100_000, 400_000}[r.IntN(3)]
+			k.LowMem = false
+			k.MaxSegFileSize = 0
+			wp.Knobs = k
+			nb := 5 + r.IntN(4)
+			evictAfter := 2 + r.IntN(2)
+			for b := 0; b < nb; b++ {
+				lo, hi := len(evs)*b/nb, len(evs)*(b+1)/nb
+				inc.Ops = append(inc.Ops, plan.Op{Kind: "ingest", Index: "lay", Events: evs[lo:hi]}, plan.Op{Kind: "flush"})
+				if b+1 == evictAfter {
+					// the limiter rebalances every minute and whenever a search asks for more memory than it holds
+					inc.Ops = append(inc.Ops, plan.Op{Kind: "advance", DurMs: 61_000}, qs[r.IntN(len(qs))])
+					// and the simulator plays a machine whose limiter grants the open segments only part of what
+					// their metadata holds now (the budget a fuller machine would compute)
+					inc.Ops = append(inc.Ops, plan.Op{Kind: "mem_pressure", Args: map[string]any{
+						"unrotated_permille": float64([]int{0, 300, 600, 900, 999}[r.IntN(5)])}})
+				}
+			}
+			if r.IntN(3) == 0 {
+				inc.Ops = append(inc.Ops, plan.Op{Kind: "advance", DurMs: 61_000})
+			}
+			inc.Ops = append(inc.Ops, qs...)
+			wp.Incs = append(wp.Incs, inc)
+			worlds = append(worlds, wp)
+			continue
+		}
 		// split the events into batches with flush / rotate / timer / restart points
 		pos := 0
 		for pos < len(evs) {
@@ -206,6 +237,10 @@ func genWorldSet(r *rand.Rand, quick bool) *plan.Plan {
 		inc.Ops = append(inc.Ops, plan.Op{Kind: "flush"})
 		if r.IntN(2) == 0 {
 			inc.Ops = append(inc.Ops, plan.Op{Kind: "rotate"})
+		}
+		if w > 0 && r.IntN(6) == 0 {
+			// rotated micro-indexes evicted from memory: "unavailable" must mean "search the block", never "skip it"
+			inc.Ops = append(inc.Ops, plan.Op{Kind: "mem_pressure", Args: map[string]any{"rotated_bytes": float64(r.IntN(2) * 2000)}})
 		}
 		inc.Ops = append(inc.Ops, qs...)
 		wp.Incs = append(wp.Incs, inc)
@@ -411,6 +446,9 @@ func describeWorld(w *plan.Plan) string {
 	var sb strings.Builder
 	k := w.Knobs
 	fmt.Fprintf(&sb, "procs=%d card=%d maxseg=%d pqs=%v aggs=%v ", k.Procs, k.CardLimit, k.MaxSegFileSize, k.PQS != nil && *k.PQS, k.Aggs != nil && *k.Aggs)
+	if k.MemBytes > 0 {
+		fmt.Fprintf(&sb, "mem=%d ", k.MemBytes)
+	}
 	for _, inc := range w.Incs {
 		nq := 0
 		for _, op := range inc.Ops {
@@ -425,6 +463,8 @@ func describeWorld(w *plan.Plan) string {
 				sb.WriteString("T")
 			case "shutdown":
 				sb.WriteString("S")
+			case "mem_pressure":
+				sb.WriteString("M")
 			case "query":
 				nq++
 			}
